@@ -75,6 +75,12 @@ CLAIMED = {
    text="Bounded model checking of the relations the statement lists: for concrete event patterns at symbolic increasing time stamps (simultaneous events across series included) and symbolic lag / taumax, event_synchronization is non-negative, exchanges its two outputs when the series are exchanged, is invariant under a common time shift and (taumax = inf) under time rescaling; event_coincidence_analysis rates lie in [0,1], exchange consistently and are shift invariant; the N x N analysis matrix equals the pairwise values under every symmetrisation option for ES and ECA; make_event_matrix marks exactly the samples beyond the value / median (NumPy quantile model).",
    note="Bounds: <=4 events per series at T=5 (5 at T=6 thorough), sampled pattern pairs (VERIF_SEED), N=3 for the matrix, T<=3 for thresholding. The closed counting formula with the library-specific double-counting correction is not re-stated as an oracle (it would demand more than the statement); significance tests (Monte Carlo) outside.",
    ref="DESIGN.md §3 C16"),
+ "C15": dict(
+   engine="K+P",
+   technique="bounded symbolic execution: twin search and twin walk kernels by the Cython parse-tree interpreter (recurrence bits, symbolic twin lists and random draws as solver variables), Surrogates methods by proxy-value execution with nondeterministic RNG stubs (symbolic permutations) and an uninterpreted FFT pair over complex proxy scalars; z3 (LIA/NRA); sat models replayed on the real classes",
+   text="Bounded model checking: twins are exactly the sufficiently separated states with identical recurrence rows (all symmetric matrices up to the bound); every state of a twin surrogate is an original state followed by its own or a twin's successor unless the series end forces a restart (all twin structures of the listed shapes, all draws); shuffle and (refined) AAFT 'true amplitudes' outputs are row-wise permutations for every permutation the RNG may return; the spectrum handed to the inverse FFT by correlated_noise_surrogates has the moduli of the forward spectrum at every frequency; the data and the memoised spectrum are unchanged after one and after two calls.",
+   note="Bounds: n<=5 (6) for twins, N<=4 states for the walk, 2 series x 3 samples (1 x 3 for AAFT) and <=2 calls. The FFT itself is an environment stub (arbitrary spectrum / arbitrary inverse): the amplitude guarantee is decided up to the contract irfft(rfft(x)) = x. Statistical quality outside.",
+   ref="DESIGN.md §3 C15"),
 }
 NA_DEFAULT = "check not built yet in this round (see DESIGN.md §6 for the planned obligation)"
 def main():
